@@ -35,11 +35,40 @@ func init() {
 
 // confGlobalPath: v is a load of <package var Conf>.A.B in package config.
 func confVarPath(v ssa.Value, varName string) (string, bool) {
+	v = localVal(peelCopy(v))
 	a, ok := loadAddr(strip(v))
 	if !ok {
 		return "", false
 	}
 	return confAddrPath(a, varName)
+}
+
+// peelCopy: a defensive copy carries the same setting: slices.Clone(x), strings.Clone(x),
+// maps.Clone(x), append([]T(nil), x...) are looked through.
+func peelCopy(v ssa.Value) ssa.Value {
+	v = strip(v)
+	for i := 0; i < 2; i++ {
+		call, isCall := v.(*ssa.Call)
+		if !isCall {
+			break
+		}
+		f := call.Call.StaticCallee()
+		if f != nil && f.Origin() != nil {
+			f = f.Origin()
+		}
+		if f != nil && f.Pkg != nil && (f.Pkg.Pkg.Path() == "slices" || f.Pkg.Pkg.Path() == "strings" || f.Pkg.Pkg.Path() == "maps") && f.Name() == "Clone" && len(call.Call.Args) == 1 {
+			v = strip(call.Call.Args[0])
+			continue
+		}
+		if bi, isB := call.Call.Value.(*ssa.Builtin); isB && bi.Name() == "append" && len(call.Call.Args) == 2 {
+			if k, isC := strip(call.Call.Args[0]).(*ssa.Const); isC && k.IsNil() {
+				v = strip(call.Call.Args[1])
+				continue
+			}
+		}
+		break
+	}
+	return v
 }
 
 func confAddrPath(a ssa.Value, varName string) (string, bool) {
@@ -167,18 +196,7 @@ func c18KeySubstitution(c *Ctx) {
 		isKey := func(v ssa.Value) bool { p, ok := confVarPath(v, "Conf"); return ok && p == k.path }
 		// substitution store
 		nStores := 0
-		freshKey := func(v ssa.Value) bool {
-			ex, ok := strip(v).(*ssa.Extract)
-			if !ok || ex.Index != 0 {
-				return false
-			}
-			call, ok := ex.Tuple.(*ssa.Call)
-			if !ok || calleeName(call) != secPkgPath+".GenerateRandomString" {
-				return false
-			}
-			n, ok := constInt(arg(call, 0))
-			return ok && n >= 32
-		}
+		freshKey := func(v ssa.Value) bool { return c.freshRandomKey(v, 32) }
 		// ensures: a helper that, given a pointer to a key, returns only with len(*p) >= 32
 		// established or a fresh random string stored through p
 		ensures := func(callee *ssa.Function, idx int) bool {
@@ -211,6 +229,28 @@ func c18KeySubstitution(c *Ctx) {
 			}
 			return true
 		}
+		// ensuresValue: a helper that, given a key, returns it only behind len(key) >= 32 and returns a
+		// fresh random string otherwise (key = ensureKey(key, name))
+		ensuresValue := func(callee *ssa.Function, idx int) bool {
+			if callee == nil || !IsFirstParty(callee) || callee.Blocks == nil || idx >= len(callee.Params) || callee.Signature.Results().Len() != 1 {
+				return false
+			}
+			p := callee.Params[idx]
+			isP := func(v ssa.Value) bool { return strip(v) == ssa.Value(p) }
+			for _, r := range returnsOf(callee) {
+				rv0 := unspill(r.Results[0])
+				if isP(rv0) {
+					if pass, _ := mustPass(callee, r, lenAtLeast(isP, 32)); !pass {
+						return false
+					}
+					continue
+				}
+				if !freshKey(rv0) {
+					return false
+				}
+			}
+			return true
+		}
 		isSubst := func(in ssa.Instruction) bool {
 			if call, ok := in.(*ssa.Call); ok {
 				for i, a := range call.Call.Args {
@@ -228,7 +268,18 @@ func c18KeySubstitution(c *Ctx) {
 			if !ok || p != k.path {
 				return false
 			}
-			return freshKey(s.Val)
+			if freshKey(s.Val) {
+				return true
+			}
+			// Conf.key = ensureKey(Conf.key, ...)
+			if call, isCall := strip(s.Val).(*ssa.Call); isCall {
+				for i, a := range call.Call.Args {
+					if ap, ok := confVarPath(a, "Conf"); ok && ap == k.path && ensuresValue(call.Call.StaticCallee(), i) {
+						return true
+					}
+				}
+			}
+			return false
 		}
 		eachInstr(load, func(in ssa.Instruction) {
 			if isSubst(in) {
@@ -276,6 +327,15 @@ func c18CSPRNGAs(c *Ctx, rule string) {
 			if strings.HasPrefix(n, "crypto/rand.") {
 				nCrypto++
 			}
+			if n == "io.ReadFull" || n == "io.ReadAtLeast" {
+				// bytes read from crypto/rand.Reader
+				if g, isG := globalLoad(strip(arg(ci, 0))); isG && g.Pkg != nil && g.Pkg.Pkg.Path() == "crypto/rand" && g.Name() == "Reader" {
+					nCrypto++
+				} else {
+					good = false
+					c.Bad(rule, name+" "+n, ci.Pos(), "key material read from a reader that is not crypto/rand.Reader")
+				}
+			}
 		}
 		// every read of crypto/rand.Reader or crypto/rand function
 		c.Check(good && nCrypto > 0, rule, name+" source", fn.Pos(), "draws from crypto/rand only", "no crypto/rand call found in the generator")
@@ -287,7 +347,27 @@ func c18CSPRNGAs(c *Ctx, rule string) {
 				if n, ok := sliceLenValue(v); ok && n == ssa.Value(fn.Params[0]) {
 					okLen = true
 				}
-				c.Check(okLen, rule, name+" length", r.Pos(), "returns exactly n symbols", "the generator's result is not a buffer of the requested length n")
+				if !okLen {
+					// a buffer grown symbol by symbol: the return is reached only once len(buffer) >= n
+					var bufV ssa.Value = v
+					if cv, isCv := v.(*ssa.Convert); isCv {
+						bufV = strip(cv.X)
+					}
+					nP := ssa.Value(fn.Params[0])
+					g := GCmp(func(a ssa.Value, op token.Token, b ssa.Value) bool {
+						if isLenOf(a, bufV) && strip(b) == nP {
+							return op == token.GEQ
+						}
+						if strip(a) == nP && isLenOf(b, bufV) {
+							return op == token.LEQ
+						}
+						return false
+					})
+					if pass, _ := mustPass(fn, r, g); pass {
+						okLen = true
+					}
+				}
+				c.Check(okLen, rule, name+" length", r.Pos(), "returns n symbols (a buffer of length n, or one grown until it holds n)", "the generator's result is not a buffer of the requested length n")
 			}
 		}
 	}
@@ -659,4 +739,23 @@ func c18RawCompare(c *Ctx) {
 	} else {
 		c.OK(rule, "settings compared raw", token.NoPos, "all %d tests of Tls/HostSelection/SessionStore in config and main are exact comparisons with constants", n)
 	}
+}
+
+// freshRandomKey: v is result 0 of security.GenerateRandomString(n >= min), directly or handed
+// back by a first-party helper (randomKey(name)) whose every non-empty result is that.
+func (c *Ctx) freshRandomKey(v ssa.Value, min int64) bool {
+	os := c.originsDeep(v, 0, secPkgPath+".GenerateRandomString")
+	if len(os) == 0 {
+		return false
+	}
+	for _, o := range os {
+		if o.Kind != "call" || o.Index != 0 || calleeName(o.Call) != secPkgPath+".GenerateRandomString" {
+			return false
+		}
+		n, ok := constInt(arg(o.Call, 0))
+		if !ok || n < min {
+			return false
+		}
+	}
+	return true
 }
